@@ -40,7 +40,21 @@ def build_harness(race=False):
         suffix = "-" + hashlib.sha1(os.path.abspath(REPO).encode()).hexdigest()[:8]
         hdir = os.path.join(BUILD, "harness" + suffix)
         shutil.rmtree(hdir, ignore_errors=True)
-        shutil.copytree(HARNESS, hdir)
+        subset = os.environ.get("VERIF_HARNESS_SUBSET")
+        if subset:
+            # development aid: only the named packages / sub-commands (a scratch
+            # worktree may lack hooks that other engines of the harness need)
+            os.makedirs(os.path.join(hdir, "cmd", "amverif"))
+            shutil.copy(os.path.join(HARNESS, "go.mod"), hdir)
+            shutil.copy(os.path.join(HARNESS, "cmd", "amverif", "main.go"), os.path.join(hdir, "cmd", "amverif"))
+            for item in subset.split(","):
+                if os.path.isdir(os.path.join(HARNESS, item)):
+                    shutil.copytree(os.path.join(HARNESS, item), os.path.join(hdir, item))
+                elif os.path.exists(os.path.join(HARNESS, "cmd", "amverif", item + ".go")):
+                    shutil.copy(os.path.join(HARNESS, "cmd", "amverif", item + ".go"),
+                                os.path.join(hdir, "cmd", "amverif"))
+        else:
+            shutil.copytree(HARNESS, hdir)
         gm = open(os.path.join(hdir, "go.mod")).read().replace("=> /repo", "=> " + os.path.abspath(REPO))
         open(os.path.join(hdir, "go.mod"), "w").write(gm)
     # the replace directive of harness/go.mod points at the repo; go.sum is the repo's
